@@ -105,7 +105,7 @@ func (o *c10Order) baseProj() *c10Order {
 	p := *o
 	p.MinUnitsMatch, p.ChannelType, p.Allowed, p.NotAllowed = 0, 0, nil, nil
 	p.IsPublic, p.AuctionType, p.Announcement, p.Confirmation = false, 0, 0, 0
-	p.MinNodeTier, p.SelfChanBalance, p.Ticket, p.Unannounced, p.ZeroConf = 0, 0, "", false, false
+	p.MinNodeTier, p.SelfChanBalance, p.Ticket, p.Unannounced, p.ZeroConf = 0, 0, nil, false, false
 	return &p
 }
 
